@@ -29,16 +29,24 @@ def main():
         if os.path.exists(os.path.join(seed, f)):
             shutil.copyfile(os.path.join(seed, f), os.path.join(out, f))
     meta = json.load(open(os.path.join(out, "meta.json"))) if os.path.exists(os.path.join(out, "meta.json")) else {}
-    # demo with the change (worktree as left by the agent), then without
-    c1, o1 = sh("%s seed/demo.py" % PY, cwd=wt)
-    sh("git stash -q", cwd=wt)
-    pyx = "pyx" in open(os.path.join(out, "patch.diff")).read()
+    # demo with the change (worktree as left by the agent), then without (reverse patch; never `git stash`: the stash is shared between worktrees)
+    env1 = dict(os.environ, OMP_NUM_THREADS="1", OPENBLAS_NUM_THREADS="1", MKL_NUM_THREADS="1")
+    patch = os.path.join(out, "patch.diff")
+    pyx = "pyx" in open(patch).read()
+    c, o = sh("git diff --quiet -- datascope", cwd=wt)
+    if c == 0:                       # change not applied in the worktree: apply it
+        sh("git apply %s" % patch, cwd=wt)
+    c1, o1 = sh("%s seed/demo.py" % PY, cwd=wt, env=env1)
+    sh("git apply -R %s" % patch, cwd=wt)
     if pyx:
         sh("%s setup.py build_ext --inplace >/dev/null 2>&1; rm -rf build" % PY, cwd=wt)
-    c0, o0 = sh("%s seed/demo.py" % PY, cwd=wt)
-    sh("git stash pop -q", cwd=wt)
+    c0, o0 = sh("%s seed/demo.py" % PY, cwd=wt, env=env1)
+    sh("git apply %s" % patch, cwd=wt)
     if pyx:
         sh("%s setup.py build_ext --inplace >/dev/null 2>&1; rm -rf build" % PY, cwd=wt)
+    if "--tests" in sys.argv:
+        ct, ot = sh("%s -m pytest -q -p no:cacheprovider -k 'not benchmark' tests 2>&1 | tail -1" % PY, cwd=wt, env=env1)
+        meta["tests_with_change"] = ot.strip()
     meta["confirmed"] = dict(demo_with_change=dict(exit=c1, tail=o1.strip().splitlines()[-1:] if o1.strip() else []),
                              demo_without_change=dict(exit=c0, tail=o0.strip().splitlines()[-1:] if o0.strip() else []))
     results = {}
